@@ -32,8 +32,12 @@ m = {
     "notes": "Runtime monitoring only: every check executes the real zoekt code from /repo's working tree (rebuilt on each run with -tags verif) under generated workloads, with differential oracles, invariant monitors, history checkers, the Go race detector and kill/fault injection through build-tag guarded hooks. Exit 2 = broken/inconclusive run (no verdict). See DESIGN.md.",
     "not_applicable": [],
 }
+reg_path = os.path.join(V, "registered.json")
+registered = set(json.load(open(reg_path))) if os.path.exists(reg_path) else set(checks)
 engines = {}
 for cid in sorted(checks):
+    if cid not in registered:
+        continue
     c = checks[cid]
     eng = c.get("engine", c["pkg"].split("/")[-1])
     engines.setdefault(eng, {"name": eng, "path": c.get("path", "harness/"), "serves_properties": [], "kind_free_text": c.get("engine_kind", "go test binary built from /repo + overlay harness")})
@@ -52,7 +56,10 @@ for cid in sorted(checks):
     m["checks"].append(entry)
 m["engines"] = list(engines.values())
 for p in props:
-    if p["id"] not in checks:
-        m["not_applicable"].append({"property_id": p["id"], "reason": na.get(p["id"], "check not built yet in this round (in progress; the property is within reach of runtime monitoring, see DESIGN.md §4)")})
+    if p["id"] not in checks or p["id"] not in registered:
+        why = "check not built yet (in progress; the property is within reach of runtime monitoring, see DESIGN.md §4)"
+        if p["id"] in checks:
+            why = "a check exists (./vcheck %s) but is not claimed yet: it has not been confirmed silent on the unchanged tree over the required seeds / its alarms are still being triaged" % p["id"]
+        m["not_applicable"].append({"property_id": p["id"], "reason": na.get(p["id"], why)})
 json.dump(m, open(os.path.join(V, "MANIFEST.json"), "w"), indent=1)
 print("MANIFEST.json: %d checks, %d not_applicable" % (len(m["checks"]), len(m["not_applicable"])))
